@@ -510,6 +510,12 @@ pub fn gen_gates(rng: &mut Rng, big: bool) -> u16 {
 pub fn gen_moment(rng: &mut Rng, d: &mut Distinct, name: [u8; 3], gates: u16, word: u8) -> Moment {
     let n = gates as usize * (word as usize / 8);
     let mut data = rng.bytes(n);
+    // one 16-bit moment in eight is "quiet": every word fits in a byte (high bytes zero)
+    if word == 16 && rng.chance(1, 8) {
+        for k in (0..n).step_by(2) {
+            data[k] = 0;
+        }
+    }
     // make sentinel raws frequent
     for i in 0..n.min(16) {
         if rng.chance(1, 4) {
